@@ -126,7 +126,7 @@ def run_for(prop, rule, model):
                 path = os.path.join(root, os.path.relpath(m.path, REPO))
                 tree = ast.parse(m.source)
                 if kind == "rename-locals":
-                    n_changed += _rename_locals(tree)
+                    n_changed += _rename_locals(tree, every=True)
                 else:
                     n_changed += 1
                 new = ast.unparse(ast.fix_missing_locations(tree)) + "\n"
